@@ -557,4 +557,37 @@ theorem Reach.inv {size : Nat} {M : List BVec} (hR : Rect size M) {pre rest : Li
       subst ha; subst hb; exact h2
     · rw [hs] at h1; cases h1
 
+
+/-! ### consequences for the returned family -/
+
+theorem kernelGauss_mem {size : Nat} {M : List BVec} (hR : Rect size M) {K : List BVec}
+    (h : kernelGauss M = some K) (v : BVec) (hv : v ∈ K) :
+    v.length = M.length ∧ mulVec size M v = List.replicate size false ∧ ∃ i, bitAt v i = true := by
+  obtain ⟨pre, rest, hk, hI, hz⟩ := kernelGauss_spec size M hR
+  rw [h] at hk
+  injection hk with hk
+  subst hk
+  obtain ⟨r, hr, rfl⟩ := List.mem_map.mp hv
+  have hok := hI.entries r (by simp [hr])
+  refine ⟨hok.hcoef, ?_, ?_⟩
+  · rw [hok.hmul]
+    apply bvec_ext
+    · simp [hok.hcol]
+    · intro i
+      rw [bitAt_replicate_false]
+      exact (lzTop_eq_length_iff r.col).mp (by rw [← hok.hz, hz r hr, hok.hcol]) i
+  · have hind := hI.indep
+    rw [List.map_append] at hind
+    exact hind.suffix.ne_zero r.coef (List.mem_map_of_mem hr)
+
+theorem kernelGauss_indep {size : Nat} {M : List BVec} (hR : Rect size M) {K : List BVec}
+    (h : kernelGauss M = some K) : Indep K := by
+  obtain ⟨pre, rest, hk, hI, _⟩ := kernelGauss_spec size M hR
+  rw [h] at hk
+  injection hk with hk
+  subst hk
+  have := hI.indep
+  rw [List.map_append] at this
+  exact this.suffix
+
 end Ymq.Gf2
